@@ -82,7 +82,10 @@ def main():
 
     def one(shard):
         cmd = [exe, spec.name, str(chk.seed), str(n_iid), str(n_grid), "1" if port_fermi else "0", str(shard), str(nshards)]
-        return (shard,) + run(cmd, timeout=7200 if quick else 12 * 3600, env=build.lib_env("plain", {"VERIF_DEEP_EVENTS": "10000" if quick else "1500000"}))
+        env = {"VERIF_DEEP_EVENTS": "10000" if quick else "1500000"}
+        if shard % 2 == 1:
+            env["VERIF_C02_SHARED_PARS"] = "1"   # one bbpars object for the whole shard, never reset (see c02_diff.cc)
+        return (shard,) + run(cmd, timeout=7200 if quick else 12 * 3600, env=build.lib_env("plain", env))
 
     results = pmap(one, list(range(nshards)), jobs=NCPU)
     os.unlink(spec.name)
@@ -126,7 +129,8 @@ def main():
         "evaluations": events + rejected + accepted,
         "distinct_nontrivial": distinct,
         "rule": "configurations = all 51 isotopes x levels 0..16 x modes 1..20 (+ seeded energy windows on window-capable modes, "
-                "+ seeded NMEs for mode 18); for every configuration ier of both sides is compared; for accepted ones "
+                "+ seeded NMEs for mode 18); for every configuration ier of both sides is compared (odd shards keep ONE bbpars object for all their configurations, never "
+                "reset, as the reference keeps its common blocks); for accepted ones "
                 "toallevents/clamped range/levelE/init draws, then events on i.i.d. tapes and with each of the first 12 cells pinned "
                 "over a log-tail+quantile grid, and (levels with a de-excitation cascade) a frontier search over pinned cells guided by new "
                 "reference-event signatures (harness/steer.h); distinct = distinct reference event signatures summed over configurations",
